@@ -166,6 +166,8 @@ func edits() []Op {
 		tog("link:dir/link", func(v *Vars) { v.Link = (v.Link + 1) % 3 }),
 		tog("global:LATE", func(v *Vars) { v.Late = 1 - v.Late }),
 		tog("const:K", func(v *Vars) { v.K = (v.K + 1) % len(kvals) }),
+		tog("const:K int<->float", func(v *Vars) { v.KF = !v.KF }),
+		tog("global:ORD order", func(v *Vars) { v.Ord = !v.Ord }),
 		tog("default:leaf.d", func(v *Vars) { v.D = 1 - v.D }),
 		tog("code:helper", func(v *Vars) { v.H = 1 - v.H }),
 		tog("global:G", func(v *Vars) { v.G = 1 - v.G }),
@@ -246,6 +248,8 @@ func focused(prop string, thorough bool) []focus {
 			{[]string{"fail:mid", "edit:dir/x.txt", "build:mid", "build:top"}, 8 + d},
 			{[]string{"edit:pkg/b.txt", "edit:src/a.txt", "build:gen+top(one load)", "build:leaf+top(one load)", "build:mid+top(one load)", "build:top"}, 5 + d},
 			{[]string{"dep:diamond", "edit:src/a.txt", "code:helper", "build:leaf", "build:mid", "build:top"}, 6 + d},
+			// edits between values that compare equal but can be told apart by the function
+			{[]string{"const:K int<->float", "global:ORD order", "const:K", "build:mid", "build:top"}, 6 + d},
 		}
 	case "C02":
 		return []focus{
@@ -509,6 +513,11 @@ func (x *searcher) checkBuild(s, n *State, o buildOpts, res *buildResult) {
 							why = "dependency-executed-now"
 						}
 					}
+				}
+				if why == "" && s.M.T[t].Code != v.codeText(t) {
+					// the code of the target's own build file was edited since it last ran
+					why = "own-build-file-edited"
+					x.r.Add("executions_accepted_after_edit_of_own_build_file", 1)
 				}
 				if why == "" && x.prop == "C02" {
 					reason := ""
